@@ -10,6 +10,8 @@
 //!   reload       snapshot/reload at random points, lock-step continuation (C07)
 //!   wide         prices and volumes near the 2^32 bounds, big tick sizes
 //!   malformed    off-grid creations and off-grid modify prices (C12)
+//!   edge         as malformed, on a window of grid prices at the very bottom (0, tick, ..) or the very
+//!                top (.., floor(MAX/tick)*tick) of the price range (C12: "arbitrary prices")
 //!   invalid      unknown ids, zero volumes, clock moved back: only to compare faults with panics
 
 use crate::bookdrive::Live;
@@ -73,8 +75,9 @@ impl Gen {
         let cur = live.book.order(id).vol;
         let p = if self.chance(0.5) {
             None
-        } else if self.profile == "malformed" && self.tick > 1 && self.chance(0.5) {
-            Some(self.price() + self.rng.gen_range(1..self.tick))
+        } else if (self.profile == "malformed" || self.profile == "edge") && self.tick > 1 && self.chance(0.5) {
+            let r = self.rng.gen_range(1..self.tick);
+            Some(self.price().saturating_add(r))
         } else {
             Some(self.price())
         };
@@ -109,7 +112,7 @@ impl Gen {
                 "toggle" => (35, 10, 5, 5, 8, 17, 12, 1, 0, 5, 2),
                 "redundant" => (22, 6, 8, 8, 8, 10, 3, 1, 0, 28, 6),
                 "reload" => (35, 8, 5, 5, 10, 18, 3, 1, 12, 3, 0),
-                "malformed" => (40, 5, 10, 5, 8, 25, 2, 1, 2, 4, 0),
+                "malformed" | "edge" => (40, 5, 10, 5, 8, 25, 2, 1, 2, 4, 0),
                 "ties" => (42, 8, 5, 5, 10, 22, 2, 1, 2, 3, 0),
                 "py" => (45, 10, 0, 0, 12, 24, 4, 0, 4, 0, 3),
                 _ => (40, 8, 6, 6, 12, 20, 0, 1, 0, 4, 3),
@@ -133,13 +136,13 @@ impl Gen {
                 ops.push(Op::Time(g.t));
             }
         };
-        let offgrid = prof == "malformed" || prof == "py";
+        let offgrid = prof == "malformed" || prof == "py" || prof == "edge";
         if pick(w_cap) {
             advance(self, &mut ops);
             let s = self.chance(0.5);
             let mut p = self.price();
             if offgrid && self.tick > 1 && self.chance(0.4) {
-                p += self.rng.gen_range(1..self.tick);
+                p = p.saturating_add(self.rng.gen_range(1..self.tick));
             }
             let v = self.vol();
             let tr = self.rng.gen_range(0..5);
@@ -154,7 +157,7 @@ impl Gen {
             let s = self.chance(0.5);
             let mut p = self.price();
             if offgrid && self.tick > 1 && self.chance(0.4) {
-                p += self.rng.gen_range(1..self.tick);
+                p = p.saturating_add(self.rng.gen_range(1..self.tick));
             }
             let v = self.vol();
             let tr = self.rng.gen_range(0..5);
